@@ -269,7 +269,11 @@ def check_bonds(coarse, fine, frag_dict, legacy, all_atom, dedicated=False):
         allowed = {int(bu[-1]), int(bv[-1])} if not legacy else {int(bu[-1])}
         if legacy and bu[-1] != bv[-1]:
             return 'bond:order-digits-differ', {'bonding': (bu, bv)}
-        if not (o in allowed or (arom and o == 1.5)):
+        # both ends written as aromatic atoms but the ring shows no delocalisation-induced equivalence (thiophene,
+        # furan, pyrrole): pysmiles reports such a ring kekulised, the cut bond then has its Kekule order (1 or 2)
+        written_arom = any(bool(frag_dict[coarse.nodes[p[0]]['fragname']].nodes[p[1]].get('aromatic')) and
+                           bool(frag_dict[coarse.nodes[q[0]]['fragname']].nodes[q[1]].get('aromatic')) for p, q in pairs)
+        if not (o in allowed or (arom and o == 1.5) or (written_arom and not arom and o in (1, 2))):
             return 'bond:order', {'edge': (u, v), 'order': o, 'bonding': (bu, bv)}
         if len(pairs) == 1:
             (p, q) = pairs[0]
